@@ -304,6 +304,13 @@ class World(object):
         self.before_log = []
         self.after_log = []
         self.transitions = 0
+        # deduplicate (C12): R7 in-flight map  (fn, host, key) -> task
+        self.dd_body = prog.flushmodes.get("ddbody", "y1")
+        self.dd_inflight = {}
+        self.dd_runs = {}
+        self.dd_stack = []
+        self.dd_hosts = None
+        self.dd_calls = 0
 
     def v(self, cat, msg):
         self.viol.append((cat, msg))
@@ -505,10 +512,77 @@ class World(object):
                 self.shared_tasks[idx] = r
         elif op == "re":
             return made[lf[2] % len(made)] if made else None
+        elif op == "dd":
+            r = self.dd_call(lf[2], lf[3], lf[4])
         else:
             raise ValueError(op)
         made.append(r)
         return r
+
+    # ---------------------------------------------------------------------------- deduplicate (R7)
+    def dd_target(self, fn):
+        if self.dd_hosts is None:
+            self.dd_hosts = {"x": DDHost("x"), "y": DDHost("y")}
+        if fn == "f":
+            return dd_f, ("f", None)
+        if fn == "g":
+            return dd_g, ("g", None)
+        if fn == "mx":
+            return self.dd_hosts["x"].m, ("m", "x")
+        if fn == "my":
+            return self.dd_hosts["y"].m, ("m", "y")
+        if fn == "s":
+            return DDHost.s, ("s", None)
+        if fn == "sx":  # static method reached through an instance: same function, same key space
+            return self.dd_hosts["x"].s, ("s", None)
+        raise ValueError(fn)
+
+    def dd_call(self, fn, key, sp):
+        target, ident = self.dd_target(fn)
+        rk = ident + (key,)
+        self.dd_calls += 1
+        prev = self.dd_inflight.get(rk)
+        in_flight = prev is not None and not prev.is_computed()
+        from_inside = rk in self.dd_stack
+        if sp == "pos":
+            t = target.asynq(key, 0)
+        elif sp == "kw":
+            t = target.asynq(key=key, mode=0)
+        elif sp == "def":
+            t = target.asynq(key)
+        elif sp == "mix":
+            t = target.asynq(key, mode=0)
+        else:
+            raise ValueError(sp)
+        self.keep.append(t)
+        if in_flight and not from_inside:
+            if t is not prev:
+                self.v("dedup-identity", "call %s(%s) [%s] while the same key is in flight returned a new task instead of the in-flight one" % (fn, key, sp))
+        else:
+            if prev is not None and t is prev:
+                if from_inside:
+                    self.v("dedup-identity", "call %s(%s) from inside its own running body returned the running task" % (fn, key))
+                else:
+                    self.v("dedup-identity", "call %s(%s) after the earlier execution completed (or was dirtied) returned the old task" % (fn, key))
+            for ok, ot in self.dd_inflight.items():
+                if ot is t and ok != rk:
+                    self.v("dedup-cross-key", "call %s(%s) returned the task of a different key/function/instance %s" % (fn, key, ok))
+            if not from_inside:
+                self.dd_inflight[rk] = t
+        return t
+
+    def dd_dirty(self, fn, key):
+        target, ident = self.dd_target(fn)
+        target.dirty(key)
+        self.dd_inflight.pop(ident + (key,), None)
+
+    def dd_post(self):
+        table = _tools.DeduplicateDecorator.tasks
+        for k, t in list(table.items()):
+            if t.is_computed():
+                self.v("dedup-table-residue", "deduplicate table still holds a completed task for key %r" % (k[0],))
+        for rk, n in self.dd_runs.items():
+            pass
 
     def build(self, tc, s, made, leaves):
         op = s[0]
@@ -800,6 +874,8 @@ class World(object):
                    % (self.sv[0].get(), self.sv[1].get(), self.target.attr))
         if self.ctx_stack:
             self.v("ctx-left-active", "contexts still active after the computation: %s" % (self.ctx_stack,))
+        if self.dd_calls:
+            self.dd_post()
 
     def dispose(self):
         """detach the world: from here on nothing is judged.  The caller drops its reference and, if
@@ -935,8 +1011,79 @@ def _block(w, tc, stmts, rec, made):
             w.make_leaf(tc, st[2], made)
         elif op == "iv":
             rec.append(w.item_value(tc, st))
+        elif op == "ddirty":
+            w.dd_dirty(st[2], st[3])
         else:
             raise ValueError(op)
+
+
+_DD_IDX = {("f", None): 0, ("g", None): 1, ("m", "x"): 2, ("m", "y"): 3, ("s", None): 4}
+
+
+def _dd_body(fn, host, key):
+    """body shared by all deduplicated harness functions; behaviour chosen by the program"""
+    w = W
+    rk = (fn, host, key)
+    run = w.dd_runs.get(rk, 0) + 1
+    w.dd_runs[rk] = run
+    base = -(100000 + _DD_IDX[(fn, host)] * 10000 + key * 1000 + run * 10)
+    kind = w.dd_body
+    w.dd_stack.append(rk)
+    try:
+        if kind == "ret":
+            return ("dd", fn, host, key, run)
+        if kind == "selfsync" and run == 1:
+            # synchronous re-entry with the same key while this body is running (escape hatch)
+            inner = w.dd_call({"f": "f", "g": "g", "s": "s"}.get(fn, "m" + (host or "x")), key, "pos").value()
+        else:
+            inner = None
+        it = HItem("a", base, "ok")
+        w.dd_stack.pop()
+        try:
+            v1 = yield it
+        finally:
+            w.dd_stack.append(rk)
+        if kind == "y1raise":
+            raise w.err(HErr, ("dd", fn, host, key, run))
+        if kind == "y2":
+            it2 = HItem("b", base - 1, "ok")
+            w.dd_stack.pop()
+            try:
+                v2 = yield it2
+            finally:
+                w.dd_stack.append(rk)
+            return ("dd", fn, host, key, run, v1, v2)
+        return ("dd", fn, host, key, run, v1, inner)
+    finally:
+        w.dd_stack.pop()
+
+
+@_tools.deduplicate()
+@_asynq_deco()
+def dd_f(key, mode=0):
+    return (yield from _dd_body("f", None, key))
+
+
+@_tools.deduplicate()
+@_asynq_deco()
+def dd_g(key, mode=0):
+    return (yield from _dd_body("g", None, key))
+
+
+class DDHost(object):
+    def __init__(self, name):
+        self.name = name
+
+    @_tools.deduplicate()
+    @_asynq_deco()
+    def m(self, key, mode=0):
+        return (yield from _dd_body("m", self.name, key))
+
+    @_tools.deduplicate()
+    @_asynq_deco()
+    @staticmethod
+    def s(key, mode=0):
+        return (yield from _dd_body("s", None, key))
 
 
 @_asynq_deco()
